@@ -71,15 +71,19 @@ CLAIMED = {
             "The rule prover generalises from four observations, so no universal soundness theorem is true of it; each ANSWER is validated instead. On every run the real run_prover (overflow-checked build) is compared with the Lean model of prover.rs + run_prover (full result record), and every undfnd / spnout / infrul verdict and every rule-free run of the real code is judged against the L0 machine: halting slot, marks, and - when no rule was applied - step count and blank-tape steps. An infrul verdict from a non-negative rule has no certificate in the code's output and is only falsifiable (counted). Lean theorems about a trace validator (BB/Props/C02.lean, when present in the audit) make the per-answer check itself verified.",
             "Trusted: Lean kernel + propext/Classical.choice/Quot.sound (audited by #print axioms on every run); the hand-written L1 model to the extent the correspondence check samples it; Lean compiler for the driver and oracle; vlib orchestration; rustc. Oracle budget 1e6 (quick) / 2e7 (thorough) base steps; later terminations are counted, not judged.",
             "per-answer validation against the L0 semantics + differential correspondence with a Lean model of the prover", "5/C02"),
-    "C10": ("exploration",
-            "The real build_tree (through wrappers::tree_progs) is compared, for sizes 2x2..2x4, 3x3 and 5x2 at small limits, both halt flags and a limit ladder, with (i) the Lean model of tree.rs (sorted list, count vs distinct count, single-thread emission order, order-independent hash for trees too large to list), (ii) an independently written sequential reference enumerator (vlib/treeref.py: cell-level tape, availability recomputed from the table, written from the property's sentence) as sorted lists, and (iii) itself under rayon pools of 1,2,3,5,8,16 threads. Lean theorems (BB/Props/C10.lean) are attached to the evidence when present; until they are, this is exploration.",
-            "Trusted: Lean kernel + propext/Classical.choice/Quot.sound (audited by #print axioms on every run); the hand-written L1 model to the extent the correspondence check samples it; Lean compiler for the driver and oracle; vlib orchestration; rustc. Mutual exclusion of the harvester's push is Rust's Mutex (trusted).",
-            "differential correspondence with a Lean model + independent reference enumerator + thread-count sweep", "5/C10"),
+    "C10": ("proof",
+            "Lean theorems (BB/Props/C10.lean) about the model of tree.rs for ALL table sizes, both halt flags and ALL step limits: a successful call emits exactly the programs of the declarative generation process of the property's sentence (tree_complete_sound: run from the blank tape, fill each undefined slot reached within the limit with every instruction using at most one not-yet-used state and colour, until the slot budget is spent, restricted to programs mentioning the last state and colour), the code's availability counters agree with that declarative reading (avail_counters_declarative), no program is emitted twice (tree_nodup, also as printed tables: tree_table_inj), the leaf filter is exact, exactly when the call panics (tree_error_iff), and every interleaving of the per-task harvests is a permutation of the sequential harvest (schedule_indep). Tied to the real build_tree by correspondence (sorted list, count vs distinct, emission order, hash), an independently written reference enumerator (vlib/treeref.py) and runs under rayon pools of 1,2,3,5,8,16 threads.",
+            "Trusted: Lean kernel + propext/Classical.choice/Quot.sound (audited by #print axioms on every run); the hand-written L1 model to the extent the correspondence check samples it; Lean compiler for the driver and oracle; vlib orchestration; rustc. Mutual exclusion of the harvester's push is Rust's Mutex (trusted): the theorem covers every interleaving of whole pushes, the absence of data races is the type system's, not a theorem.",
+            "Lean 4 proof (soundness+completeness against a declarative enumerator, permutation under interleaving) + differential correspondence + reference enumerator + thread-count sweep", "5/C10"),
+    "C03": ("translation_validation",
+            "The rule prover generalises from four observations, so no universal theorem about its rules is true; each APPLICATION is validated. The real run_prover reports every rule application of its main loop (state, tape before, tape after, times) through the guarded on_rule hook; each is compared with the application the Lean model of prover.rs/rules.rs makes at the same place and re-validated by the Lean function checkApp, which re-runs the plain run-length simulator from the tape before until it stands on the tape after in the same state. Theorems (BB/Props/C03.lean): checkApp = ok IS a run of >= 1 steps of the cell-by-cell machine between the two configurations with a defined instruction at every step (check_app_sound), no spin-out configuration on the way and canonical tapes (check_app_no_spinout), the validator is complete for reachable targets within budget (check_app_complete), and apply_rule keeps every block >= 1 and the tape canonical (apply_rule_positive, apply_rule_canon). An application the budget cannot reach is counted, not judged.",
+            "Trusted: Lean kernel + propext/Classical.choice/Quot.sound (audited by #print axioms on every run); the hand-written L1 model to the extent the correspondence check samples it; Lean compiler for the driver and validator; vlib orchestration; rustc; the guarded hook (reports the tape cloned just before apply_rule and the tape just after). Budget 1e5 (quick) / 2e6 (thorough) simulator cycles per application.",
+            "per-application validation by a Lean-verified validator + differential correspondence with a Lean model of the prover", "5/C02-C03"),
 }
 
 ALL = ["C%02d" % i for i in range(1, 19)]
 
-PENDING_REASON = "check being built in this revision: the validator ops and theorems for per-application validation (checkApp) are not wired yet; see DESIGN.md section 10"
+PENDING_REASON = "not claimed in this revision; see DESIGN.md section 11"
 
 
 def main():
